@@ -147,18 +147,24 @@ Definition neighbors (st : store) (ci : bool) (n : Z) (d : dir) (ty : option str
 (** * Rows.  A cell remembers the vector kind it lives in (vector.rs): NodeId, EdgeId or Generic. *)
 Inductive cell := CNode (i : Z) | CEdge (i : Z) | CVal (v : val).
 Definition row := list cell.
-(** [sel]: when the chunk carries a selection vector (it comes straight out of a FilterOperator),
-    the physical rows underneath it — a FilterOperator stacked on top evaluates its predicate over
-    these and REPLACES the selection (filter.rs l.1212-1224) *)
-Record tbl := mkTbl { cols : list string; rows : list row; sel : option (list row) }.
-Definition mkT (cs : list string) (rs : list row) : tbl := mkTbl cs rs None.
-Definition phys (t : tbl) : list row := match sel t with Some ph => ph | None => rows t end.
-(** a chunk in which nothing passes is dropped altogether ("continue"), so nothing is left for an
-    outer filter to resurrect *)
-Definition filter_tbl (keep : row -> bool) (t : tbl) : tbl :=
-  match filter keep (phys t) with
-  | [] => mkT (cols t) []
-  | rs => mkTbl (cols t) rs (Some (phys t))
+(** A chunk is modelled by its LOGICAL rows.  A FilterOperator leaves a selection vector on the
+    chunk it hands on; since df57ccb a FilterOperator stacked on top narrows that selection
+    (filter.rs l.1214-1224: [existing.filter(..)]), every other operator reads through the selection
+    (flatten / selected rows), so the selected rows are all that can be observed.  The behaviour
+    before that repair — the outer filter evaluated its predicate over all PHYSICAL rows and
+    replaced the selection — is kept as [filter_chunk_pre] below. *)
+Record tbl := mkTbl { cols : list string; rows : list row }.
+Definition mkT (cs : list string) (rs : list row) : tbl := mkTbl cs rs.
+Definition filter_tbl (keep : row -> bool) (t : tbl) : tbl := mkT (cols t) (filter keep (rows t)).
+
+(** the pre-df57ccb FilterOperator on one chunk: physical rows + optional selection (indices are
+    modelled by the selected rows themselves); a chunk in which nothing passes is dropped *)
+Record chunk_pre := mkChunkPre { ph_rows : list row; ph_sel : option (list row) }.
+Definition chunk_pre_rows (c : chunk_pre) : list row := match ph_sel c with Some s => s | None => ph_rows c end.
+Definition filter_chunk_pre (keep : row -> bool) (c : chunk_pre) : chunk_pre :=
+  match filter keep (ph_rows c) with
+  | [] => mkChunkPre [] None
+  | rs => mkChunkPre (ph_rows c) (Some rs)
   end.
 
 (** [get_value] *)
@@ -434,7 +440,7 @@ Definition return_tbl (st : store) (items : list (lexpr * option string)) (t : t
     (* simple case: only variables; a ProjectOperator only when columns are dropped or reordered *)
     do ps <- mapM (fun it => match fst it with EVar x => of_opt (pos_last x (cols t)) | _ => Err end) items;
     if Nat.eqb (List.length ps) (List.length (cols t)) && is_identity O ps
-    then Ok (mkTbl names (rows t) (sel t))
+    then Ok (mkTbl names (rows t))
     else do rs <- mapM (fun r => mapM (fun p => do c <- of_opt (nth_error r p); Ok (to_nodecol c)) ps) (rows t);
          Ok (mkT names (typed_rows (map (fun _ => TNode) ps) rs))
   else
@@ -526,12 +532,8 @@ Definition limit_rows (n : nat) (rs : list row) : list row :=
 Definition skip_rows (n : nat) (rs : list row) : list row :=
   if Nat.eqb n O then rs else map (map to_gen) (skipn n rs).
 
-(** a chunk handed on untouched keeps its selection vector *)
-Definition limit_tbl (n : nat) (t : tbl) : tbl :=
-  if Nat.ltb 0 n && negb (Nat.eqb (List.length (rows t)) 0) && Nat.leb (List.length (rows t)) n then t
-  else mkT (cols t) (limit_rows n (rows t)).
-Definition skip_tbl (n : nat) (t : tbl) : tbl :=
-  if Nat.eqb n 0 then t else mkT (cols t) (skip_rows n (rows t)).
+Definition limit_tbl (n : nat) (t : tbl) : tbl := mkT (cols t) (limit_rows n (rows t)).
+Definition skip_tbl (n : nat) (t : tbl) : tbl := mkT (cols t) (skip_rows n (rows t)).
 
 (** ** Distinct (distinct.rs): first occurrence of every row (compared by value), Generic output *)
 Definition row_vals_eqb (a b : list val) : bool :=
